@@ -642,8 +642,18 @@ func (w *world) httpOp(p []string) string {
 		if val != "-" {
 			m["value"] = tokenValue(val)
 		}
-		if ev := p[len(p)-1]; ev != "-" {
+		switch ev := p[len(p)-1]; ev {
+		case "-":
+		case "0", "1":
 			m["ev"] = ev == "1"
+		case "n1":
+			m["ev"] = 1
+		case "n0":
+			m["ev"] = 0
+		case "s1":
+			m["ev"] = "1"
+		case "st":
+			m["ev"] = "true"
 		}
 		body, _ := json.Marshal(map[string]interface{}{"characteristics": []interface{}{m}})
 		r, e := do("PUT", "/characteristics", "application/hap+json", body)
